@@ -71,13 +71,22 @@ def single(repo, report):
     if odd:
         mism, n = [{"inputs": {}, "code": f"compares {odd[0][5:]} with 0", "expected": f"compares {roles['d'].key[5:]} with 0 (reverse score - forward score)"}], len(rows)
     else:
-        mism, n, _ = check_table(rows, roles, exp, outcome)
-    report.ob("C16.R1", "ReverseComplementer.__call__", not mism, facts={"rows": len(rows), "mismatches": mism[:4]}, expected="reverse complement iff it has a match and reverse score > forward score",
-              loc=repo.loc(fn), cases=n, fact_key="needs-nonempty" if mism and all(m["code"] == "raise" for m in mism) else None,
-              why=(f"for {mism[0]['inputs']} the code does '{mism[0]['code']}', the rule says '{mism[0]['expected']}'" if mism else ""))
+        try:
+            mism, n, _ = check_table(rows, roles, exp, outcome)
+        except Unrecognised as u:
+            # the decision depends on something the rule does not know: still report what IS known (R2, R3) below
+            report.unrecognised("C16.R1", "ReverseComplementer.__call__", u.what, repo.loc(fn))
+            mism, n = None, 0
+    if mism is not None:
+      report.ob("C16.R1", "ReverseComplementer.__call__", not mism, facts={"rows": len(rows), "mismatches": mism[:4]}, expected="reverse complement iff it has a match and reverse score > forward score",
+                loc=repo.loc(fn), cases=n, fact_key="needs-nonempty" if mism and all(m["code"] == "raise" for m in mism) else None,
+                why=(f"for {mism[0]['inputs']} the code does '{mism[0]['code']}', the rule says '{mism[0]['expected']}'" if mism else ""))
     # R2 independence
     mt = sorted({c[0] for r in rows for c in r.calls if c[2].endswith(".match_and_trim")})
     ok = mt == sorted([f"self.adapter_cutter.match_and_trim({fw})", f"self.adapter_cutter.match_and_trim({rc})"])
+    # ... and on EVERY path both orientations are searched (no shortcut decides before the other orientation was seen)
+    partial = [r.describe()["valuation"] for r in rows if r.exit[0] != "raise" and len({c[0] for c in r.calls if c[2].endswith(".match_and_trim")}) != 2]
+    ok = ok and not partial
     report.ob("C16.R2", "ReverseComplementer.__call__", ok, facts={"match_and_trim_calls": mt}, expected=[f"match_and_trim({fw})", f"match_and_trim({rc})"], loc=repo.loc(fn))
     # R3 consequences
     bad = []
